@@ -368,3 +368,15 @@ def pmap(func, items, nproc=None, chunk=64):
     ctx = mp.get_context('fork')
     with ctx.Pool(nproc or NCPU) as pool:
         return pool.map(func, items, chunksize=chunk)
+
+
+def newly_bad_segments():
+    """segments that break the table obligation segWF right now (executable version of the kernel predicate):
+    {version: [segment, ...]} -- used to aim the failing-input search when a table obligation no longer builds"""
+    import hl7apy
+    vs = sorted(hl7apy.SUPPORTED_LIBRARIES)
+    try:
+        out = run_driver(['BADSEGS ' + v for v in vs], nproc=1)
+    except Infra:
+        return {}
+    return {v: [x for x in o[3:].split(',') if x] for v, o in zip(vs, out) if o.startswith('ok ') and o[3:]}
